@@ -592,6 +592,49 @@ def main():
         facts['io'] = {'pathBranchOpens': 'return open(f, mode, newline=newline, encoding=encoding)' in s,
                        'streamBranchNullcontext': 'return nullcontext(' in s, 'encodingDefault': enc}
 
+    # ---- F19 io pipelines: each reader is `with open_file(f) as f: obj = <parse>(f…)` then from_data; each writer is
+    # `with open_file(f, 'w') as f: <dump>(into_data(obj, ty, custom=custom), f, …every option forwarded…)` -------------
+    def io_pipeline(name):
+        fn = find_def(io_t, name)
+        if fn is None:
+            return None
+        withs = [n for n in fn.body if isinstance(n, ast.With)]
+        if len(withs) != 1 or len(withs[0].items) != 1:
+            return None
+        w = withs[0]
+        ctx = w.items[0].context_expr
+        out = {'opensWith': None, 'mode': None, 'call': None, 'payload': None, 'forwards': [], 'result': None, 'extraStmts': len(w.body) - 1}
+        if isinstance(ctx, ast.Call) and src_of(ctx.func) == 'open_file' and ctx.args and src_of(ctx.args[0]) == 'f':
+            out['opensWith'] = 'open_file'
+            out['mode'] = ast.literal_eval(ctx.args[1]) if len(ctx.args) > 1 and isinstance(ctx.args[1], ast.Constant) else 'r'
+        st = w.body[0]
+        call = st.value if isinstance(st, (ast.Assign, ast.Expr)) else None
+        # strip t.cast(T, X) and a plain list(X)
+        wrappers = []
+        while isinstance(call, ast.Call) and src_of(call.func) in ('t.cast', 'list'):
+            wrappers.append(src_of(call.func))
+            call = call.args[-1]
+        if isinstance(call, ast.Call):
+            out['call'] = src_of(call.func) + ('+list' if 'list' in wrappers else '')
+            if call.args:
+                out['payload'] = src_of(call.args[0])
+            out['forwards'] = sorted(k.arg for k in call.keywords if k.arg and isinstance(k.value, ast.Name) and k.value.id == k.arg)
+            out['streamArg'] = any(src_of(a) == 'f' for a in call.args)
+        else:
+            out['call'] = 'other:' + type(call).__name__
+        rets = [n for n in fn.body if isinstance(n, ast.Return)]
+        if rets and rets[-1].value is not None:
+            out['result'] = src_of(rets[-1].value)
+        return out
+    facts['ioPipelines'] = {n: io_pipeline(n) for n in ('from_json', 'from_yaml', 'from_yaml_all', 'write_json', 'write_yaml')}
+    # the dataclass methods delegate to the functions above
+    deleg = {}
+    for m in ('from_json', 'from_yaml', 'from_yaml_all', 'from_yamls', 'from_jsons', 'write_json', 'write_yaml'):
+        fn = find_def(cls_t, 'PaneBase.' + m)
+        calls = sorted({src_of(c.func) for c in ast.walk(fn) if isinstance(c, ast.Call) and src_of(c.func).startswith('io.')}) if fn is not None else None
+        deleg[m] = calls
+    facts['ioMethodDelegates'] = deleg
+
     # ---- emit -------------------------------------------------------------------------------------------
     facts['tie_broken'] = broken
     os.makedirs(os.path.dirname(OUT_JSON), exist_ok=True)
@@ -698,6 +741,17 @@ def emit_lean(F):
     A('def ioPathBranchOpens : Option Bool := ' + lean_opt(io.get('pathBranchOpens'), lean_bool))
     A('def ioStreamBranchNullcontext : Option Bool := ' + lean_opt(io.get('streamBranchNullcontext'), lean_bool))
     A('def ioEncodingDefault : Option String := ' + lean_opt(io.get('encodingDefault'), lean_str))
+    A('/-- per io function: (name, context manager, mode, parse/dump call, first argument of that call, options forwarded under')
+    A('their own name, returned expression, statements in the with-body besides the call) -/')
+    def pipe(n, v):
+        if v is None:
+            return f'({lean_str(n)}, "", "", "", "", [], "", 99)'
+        return (f'({lean_str(n)}, {lean_str(v["opensWith"] or "")}, {lean_str(v["mode"] or "")}, {lean_str(v["call"] or "")}, '
+                f'{lean_str(v["payload"] or "")}, [' + ', '.join(map(lean_str, v['forwards'])) + f'], {lean_str(v["result"] or "")}, {v["extraStmts"]})')
+    A('def ioPipelines : List (String × String × String × String × String × List String × String × Nat) := [' +
+      ', '.join(pipe(n, v) for n, v in (F.get('ioPipelines') or {}).items()) + ']')
+    A('def ioMethodDelegates : List (String × List String) := [' + ', '.join(
+        f'({lean_str(m)}, [' + ', '.join(map(lean_str, c or [])) + '])' for m, c in (F.get('ioMethodDelegates') or {}).items()) + ']')
     A('def tieBroken : List String := [' + ', '.join(map(lean_str, F['tie_broken'])) + ']')
     A('')
     A('end PaneModel.Facts')
